@@ -120,6 +120,16 @@ const (
 	StringLargeCol
 )
 
+// isNumeric returns true for column types which are compared as numbers.
+func (d DataType) isNumeric() bool {
+	switch d {
+	case IntCol, Int64Col, Int64ListCol, FloatCol:
+		return true
+	default:
+		return false
+	}
+}
+
 // StorageType defines how this column is stored
 //
 //go:generate stringer -type=StorageType
